@@ -62,6 +62,17 @@ def find_deviation_runs(trace):
     return found
 
 
+def validate(module, cfg, trace, label):
+    """vlib.validate_batch, retried once when TLC itself failed to run (the machine is shared; a JVM that
+    cannot get its memory is not a verdict)"""
+    try:
+        return vlib.validate_batch(module, cfg, trace, label)
+    except vlib.ToolError as e:
+        log("[V] %s; retrying once" % e)
+        time.sleep(20)
+        return vlib.validate_batch(module, cfg, trace, label)
+
+
 def mc(module, cfg, workers=4, timeout=900, coverage=True):
     """vlib.mc_or_die plus action coverage for TLC's `<Action line .. of module M (a b c d)>: x:y` lines"""
     import re
@@ -139,7 +150,7 @@ def run(pid, tier, seed):
     summ = vlib.harness(["clusterelect", "--out", trace, "--tier", tier, "--seed", seed])
     if summ.get("bad_runs"):
         log("[V] %d protocol runs did not finish their final observation" % summ["bad_runs"])
-    vb = vlib.validate_batch("Trace_ClusterElect", "Trace_ClusterElect.cfg", trace, "clusterelect_" + pid)
+    vb = validate("Trace_ClusterElect", "Trace_ClusterElect.cfg", trace, "clusterelect_" + pid)
     for viol in vb["violations"]:
         meta = json.loads(viol["run"][0]).get("meta", {})
         ev = viol.get("lenient_event") or viol.get("strict_event") or "{}"
